@@ -240,8 +240,9 @@ def r2(case, rec):
     with dadi_call('Cache2D.integrate'):
         got = np.asarray(np.ma.getdata(cache.integrate(pdf['params'], None, sel, theta, None, exterior_int=case['exterior'])), float)
     scale = theta * np.abs(S).max()
-    # the code asks scipy for 1e-3 relative accuracy on each out-of-range mass; allow 1e-2 of the total mass outside the grid
-    qtol = 3e-4 + 1e-2 * max(outside, 0.0)
+    # the out-of-range masses come from adaptive quadrature of the pdf with requested tolerances epsabs=1e-4, epsrel=1e-3: the
+    # allowance is twice the error those very quadratures make on this pdf and grid (measured against the exact cdf masses)
+    qtol = 3e-4 + (2.0 * Q.quad_budget_2d(gpos, d, sel, pdf['params']) if case['exterior'] else 0.0)
     sig = {}
     if case['exterior'] and wbl > 1e-3:
         sig = dict(finding='both-lethal-corner')
